@@ -696,9 +696,9 @@ def describe(cache, e, node, vals, memctx, want, got):
     return what
 
 
-def make_case(backend, e, ids, vals, memidx):
+def make_case(backend, e, ids, vals, memidx, quick=True):
     return {"tr": backend.name, "be": backend.big_endian, "expr": repr(e),
-            "vals": {str(i): v for i, v in zip(ids, vals)}, "mem": memidx}
+            "vals": {str(i): v for i, v in zip(ids, vals)}, "mem": memidx, "quick": bool(quick)}
 
 
 def judge(backend, e, st, vs, quick, only=None):
@@ -720,7 +720,7 @@ def judge(backend, e, st, vs, quick, only=None):
             vs.append(violation(sig, "%s translator raised %r on %s%s (accepted node kinds only; smallest failing "
                                      "sub-expression: %s)" % (backend.name, ex, e,
                                                               " with big-endian memory" if backend.big_endian else "", node),
-                                make_case(backend, e, [], [], None)))
+                                make_case(backend, e, [], [], None, quick)))
         return
     st["accepted_expressions"] += 1
     ids = refsem.free_ids(e)
@@ -736,10 +736,13 @@ def judge(backend, e, st, vs, quick, only=None):
         st["no_reference"] += 1
         return
     hasmem = refsem.has_mem(e)
+    vl = valuations([i.size for i in ids], quick)
     if only is not None:
-        todo = [(only[1], [tuple(only[0])])]
+        # replay: the same finite memory as in the run (built from every valuation), one valuation evaluated
+        only_vals = tuple(only[0])
+        todo = [(only[1] if hasmem else None, vl if only_vals in vl else [only_vals])]
     else:
-        vl = valuations([i.size for i in ids], quick)
+        only_vals = None
         todo = [(mi, vl) for mi in (range(len(MEMS)) if hasmem else [None])]
     outcomes = set()
     seen = set()
@@ -767,10 +770,12 @@ def judge(backend, e, st, vs, quick, only=None):
         if hasmem:
             memctx = MemCtx(memidx, touched)
         for vals, want in zip(vl, wants):
+            if only_vals is not None and vals != only_vals:
+                continue
             if want is None:
                 st["undefined_skipped"] += 1
                 continue
-            if hasmem and only is None and fn(vals, memctx.read) != want:
+            if hasmem and fn(vals, memctx.read) != want:
                 raise AssertionError("finite memory disagrees with the content function on %s %r" % (e, vals))
             try:
                 got = backend_value(backend, h, e, ids, vals, memctx)
@@ -797,7 +802,7 @@ def judge(backend, e, st, vs, quick, only=None):
                 continue
             seen.add(sig)
             vs.append(violation(sig, describe(cache, e, node, vals, memctx, want, got),
-                                make_case(backend, e, ids, vals, memidx)))
+                                make_case(backend, e, ids, vals, memidx, quick)))
     if len(outcomes) >= 2:
         st["nontrivial"] += 1
     if len(st["outcomes"]) < 4096:
@@ -892,6 +897,15 @@ def replay(case, make_backend):
     ids = refsem.free_ids(e)
     st = new_stats()
     vs = []
+    if not case["vals"] and ids:
+        # recorded translation-time failure: the case is the translation itself
+        try:
+            backend.translate(e)
+            return []
+        except NotImplementedError:
+            return []
+        except Exception:
+            pass
     vals = [case["vals"][str(i)] for i in ids] if case["vals"] else []
-    judge(backend, e, st, vs, True, only=(vals, case["mem"]))
+    judge(backend, e, st, vs, bool(case.get("quick", True)), only=(vals, case["mem"]))
     return vs
